@@ -38,9 +38,11 @@ static int decode(struct jbl_node *patch, struct jbl_patch **out, struct iwpool 
 
 int main(int argc, char **argv) {
   setvbuf(stdout, 0, _IOLBF, 0);
+  hxp_watchdog_init();
   char *line = malloc(HX_MAXLINE);
   char **w = malloc(sizeof(char*) * 65536);
-  while (fgets(line, HX_MAXLINE, stdin)) {
+  while (alarm(0), fgets(line, HX_MAXLINE, stdin)) {
+    alarm(HXP_OP_SECONDS);
     int n = hx_words(line, w, 65536);
     int sep = hxp_sep(w, n);
     if (n < 5 || strcmp(w[0], "patch") || sep < 3) { printf("bad-op\n"); continue; }
